@@ -291,6 +291,13 @@ INLINE_NOT_DRIVEN = [
 ]
 
 
+# end-to-end drivers of real output paths (call-site layer): static in-package files under harness/inpkg/<pkg>/zz_verif_c24*_test.go
+# (injected by vlib.build_overlay), called from the generated TestVerifC24 of their package
+E2E_DRIVERS = [
+    ("internal/protocols/mpegts", "vC24FromStream(t, out, r, n)"),
+]
+
+
 def _match(table, s):
     import re
     for e in table:
@@ -508,6 +515,9 @@ class C24(Prop):
                     facts[o["Fact"]] = (o["Lo"], o["Hi"])
         if facts:
             bypkg.setdefault(FACTS_PKG, [])
+        for e2e_pkg, _ in E2E_DRIVERS:
+            if os.path.isdir(os.path.join(vlib.REPO, e2e_pkg)):
+                bypkg.setdefault(e2e_pkg, [])
         pkgs = sorted(bypkg)
         ov = vlib.build_overlay(ctx.workdir, pkgs)
         ovj = json.load(open(ov))
@@ -540,6 +550,9 @@ class C24(Prop):
                         inline_src += line + "\n"
                 if mpeg1:
                     inline_src += FACT_MPEG1["body"] % {"cases": "\n".join(mpeg1)}
+            for e2e_pkg, e2e_call in E2E_DRIVERS:
+                if pkg == e2e_pkg:
+                    inline_src += "\t" + e2e_call + "\n"
             src = DRIVER_HEAD % {"pkg": vlib._pkg_name(pkg), "tag": tag, "imports": "".join("\t%s\n" % i for i in sorted(imports))}
             for s in bypkg[pkg]:
                 where = "%s:%d %s" % (s["File"], s["Line"], s["Name"])
